@@ -145,6 +145,11 @@ func (c *Ctx) reachPath(from []*ssa.Function, targets map[string]bool, skip map[
 			if cf == nil || seen[cf] || !inModulePkg(cf) {
 				continue
 			}
+			if c.cgMode == "cha" && e.Site != nil && !e.Site.Common().IsInvoke() && calleeOf(e.Site).Static == nil {
+				// CHA resolves a call through a func value by signature only
+				// (every func() in the program); such edges are followed under VTA only.
+				continue
+			}
 			seen[cf] = true
 			outs = append(outs, cf)
 		}
